@@ -518,6 +518,93 @@ pub fn run(run: &Run) {
         }
     });
 
+    // ---- many threads at once: each catch_panic returns its OWN panic's text.
+    // Fresh threads every round (the number of threads that ever used the
+    // catcher in this process keeps growing), released together; a destructor
+    // that yields while the panic unwinds gives the other threads' hooks room
+    // to run between this thread's hook and its catch_panic returning.
+    if run.opts.wants("many-threads") {
+        let threads: usize = if run.opts.variant == "miri" { 4 } else { 96 };
+        let rounds = match run.opts.variant.as_str() {
+            "miri" => 1,
+            "tsan" | "asan" | "dbg" => if run.opts.thorough() { 12 } else { 3 },
+            _ => if run.opts.thorough() { 120 } else { 8 },
+        };
+        let per_thread = 12usize;
+        let mut foreign = 0u64;
+        let mut first: Option<serde_json::Value> = None;
+        let mut observed = 0u64;
+        for round in 0..rounds {
+            let barrier = Arc::new(Barrier::new(threads));
+            let hs: Vec<_> = (0..threads)
+                .map(|tid| {
+                    let b = barrier.clone();
+                    std::thread::spawn(move || -> Vec<(String, String)> {
+                        struct SlowUnwind;
+                        impl Drop for SlowUnwind {
+                            fn drop(&mut self) {
+                                for _ in 0..6 {
+                                    std::thread::yield_now();
+                                }
+                            }
+                        }
+                        panic_catcher_enable();
+                        b.wait();
+                        let mut bad = Vec::new();
+                        for k in 0..per_thread {
+                            let tag = format!("c19-storm-r{}-t{}-k{}!", round, tid, k);
+                            let t2 = tag.clone();
+                            let r = catch_panic(AssertUnwindSafe(move || -> u8 {
+                                let _g = SlowUnwind;
+                                panic!("{}", t2)
+                            }));
+                            match r {
+                                Err(text) if text.contains(&tag) && text.matches("c19-storm-").count() == 1 => {}
+                                Err(text) => bad.push((tag, text)),
+                                Ok(_) => bad.push((tag, "<returned Ok>".into())),
+                            }
+                        }
+                        panic_catcher_disable();
+                        bad
+                    })
+                })
+                .collect();
+            for h in hs {
+                match h.join() {
+                    Ok(bad) => {
+                        observed += per_thread as u64;
+                        for (tag, text) in bad {
+                            foreign += 1;
+                            if first.is_none() {
+                                first = Some(json!({"own_message": tag, "catch_panic_returned": text.chars().take(300).collect::<String>()}));
+                            }
+                        }
+                    }
+                    Err(_) => {
+                        foreign += 1;
+                        if first.is_none() {
+                            first = Some(json!({"problem": "a thread died: its panic was not caught"}));
+                        }
+                    }
+                }
+            }
+            run.distinct(hash_str(&format!("many|{}", round)));
+        }
+        let _ = take_sentinel();
+        run.evaluations.fetch_add(observed, std::sync::atomic::Ordering::Relaxed);
+        run.counter("many_threads_caught_panics", observed);
+        run.note("many_threads", json!({"threads_per_round": threads, "rounds": rounds, "panics_per_thread": per_thread}));
+        if foreign > 0 {
+            run.violation(
+                "C19/many-threads/catch_panic-returned-another-threads-text",
+                "thread-isolation",
+                "many-threads",
+                0,
+                json!({"threads": threads, "rounds": rounds, "wrong_results": foreign, "first": first}),
+            );
+        }
+    }
+
     // ---- two threads, every step-granularity interleaving
     let nprog = count_programs(STATE_STEPS.len(), 3);
     let pairs_total = nprog * nprog;
